@@ -1,21 +1,41 @@
 """C19 (bounded, T3): explicit constructors build exactly the tensor they describe.
 
-Covered clauses of the statement (oracle = own dense evaluation `gen.dense`, exact Python integers
-where the inputs are integers):
+Covered clauses of the statement (oracle = own dense evaluation `gen.dense`, exact Python integers / Fractions
+where the inputs are integers or dyadic; for many modes / large quantisation levels the direct definition
+entry(i) = prod_k c_k[i_k] of a tensor with all TT-ranks 1 applied to its factor vectors):
 
 * const without zero list: every entry == v up to the rounding of the d-th root (v positive, negative,
-  zero, tiny, huge, both sides of the 1e-16 branch), exactly 0 for v = 0, rank 1, requested shape.
+  zero, tiny, huge, subnormal, overall scales 1e-8 .. 1e8, both sides of the 1e-16 branch), exactly 0 for v = 0,
+  rank 1, requested shape; shape as list / ndarray; d = 1 and mode sizes 513 / 600.
 * const with zero list / protected index: values in {v, 0}, exact 0 at every listed index, v at the
   protected index; exhaustive pairs (zero index, protected index) on small shapes + random lists;
-  request never raises unless the protected index itself is listed, then ValueError.
-* delta: v at the position (also NumPy-style negative positions), exact 0 elsewhere, exhaustive.
+  request never raises unless the protected index itself is listed, then ValueError.  Argument forms
+  (C19.const.arg_forms): empty list / empty ndarray, protected index without zero list, list rows with ndarray
+  protected index and vice versa, int32 indices, shape as ndarray, v as NumPy float64 / int64 scalar.
+* const / delta with many modes (C19.*.many_modes): d = 7 .. 100 (300 thorough), even and odd d with negative v,
+  |v| from 1e-300 to 1e300 (the product over the cores must neither over- nor underflow), zero rows that differ from
+  the protected index in exactly one mode (up to d-1 round-robin skips), mode sizes up to 700.
+* delta: v at the position (also NumPy-style negative positions: alternating or all components), exact 0
+  elsewhere, exhaustive; shape / position as list or ndarray.
 * vector_delta / matrix_delta: exhaustive positions in [-2^q, 2^q) (negative counted from the end),
-  out-of-range positions raise ValueError; q <= 4 quick / 6 thorough (matrix: q <= 3 / 4).
-* poly: scale * sum_k (i_k + shift_k)^power, scalar and per-mode shift, exact for integer data.
+  out-of-range positions raise ValueError; q <= 4 quick / 6 thorough (matrix: q <= 3 / 4); positions as int or
+  np.int64; v up to +-1e300.  Large quantisation levels q = 5 .. 200 with sampled positions (corner, 2^31 / 2^32
+  neighbours, random, both spellings) checked bit by bit against exact Python integers: C19.*.large_q for
+  normalised positions below 2^53, C19.*.pos_ge_2p53 for positions >= 2^53 (q >= 54) -- the latter FAILS on the
+  pinned tree (float division `int(i / 2)` in utils._vector_index_expand: ValueError for -1 / 2^q - 1, wrong
+  position for e.g. 2^53 + 3); C19.index_helpers.bits evaluates the two index helpers directly.
+* poly: scale * sum_k (i_k + shift_k)^power, shift as number / list / ndarray, shape as list / ndarray, exact for
+  integer data; negative, fractional and large powers (positive bases), scales 0, 1e-300 .. 1e300, shifts 1e-300 ..
+  1e8, mode sizes 513 / 600; d up to 100 (200) at sampled multi-indices against exact Fractions (C19.poly.many_modes).
 * rand / rand_norm / rand_custom / rand_stab: well-formed, requested shape and rank profile (scalar or
-  per-bond list), entries in [a, b] (rand), mean / std / 1-sigma mass at >= 7 sigma (rand_norm),
-  every drawn value used exactly once (rand_custom), identity pattern + noise of the requested level and
-  entries of the dense tensor equal to 1 within a rigorous product bound for d up to 50 (rand_stab).
+  per-bond list, list or ndarray, ranks larger than a core can carry), entries in [a, b] (rand; a = b, subnormal,
+  1e-300, 1e300, 1e8 (1 + 1e-7) ranges), mean / std / 1-sigma mass at >= 7 sigma on the standardised sample
+  (rand_norm; s from 1e-300 to 1e95), every drawn value used exactly once (rand_custom), identity pattern + noise of
+  the requested level (0, 1e-300 .. 0.5) and entries of the dense tensor equal to 1 within a rigorous product bound
+  for d up to 100 (1000 thorough) (rand_stab); d = 100 and mode size 600 for all of them.
+* seed forms (C19.rand.seed_forms): int (repeatable, seed-dependent), np.random.Generator over PCG64 / MT19937 (really
+  consumed), None (fresh on each call); the global NumPy state stays untouched.
+* documented default values of every constructor (C19.defaults).
 """
 import itertools
 import math
@@ -26,11 +46,15 @@ from rtc import gen
 
 
 BUDGET = (100, 600)
-BOUNDS = ('const/delta: 13 shapes with d<=5, n<=4 (incl. mode size 1), 19 values v incl. 0, -0.0, 1e-300, 1e-16 '
-          'branch point, 1e300; zero lists: all (zero, protected) pairs on 5 shapes + random lists of <= 6 rows; '
-          'vector_delta q<=4/6, matrix_delta q<=3/4, all positions in [-2^q, 2^q) + out-of-range; poly: 9 shapes x '
-          'integer/float shifts x powers 0..4; random constructors: 8 shapes x scalar/list ranks x seeds, '
-          'rand_stab d in {2..50}')
+BOUNDS = ('const/delta: 13 shapes with d<=5, n<=4 (incl. mode size 1) + d=1 + modes 513/600, 27 values v incl. 0, -0.0, '
+          '5e-324, 1e-300, 1e-16 branch point, +-1e8, +-1e300; zero lists: all (zero, protected) pairs on 5 shapes + random '
+          'lists of <= 6 rows + 9 argument forms; many modes d in {7,61,100} (..300 thorough) x 5-11 values x 4 zero-list '
+          'variants (rank-1 factor analysis); vector_delta q<=4/6, matrix_delta q<=3/4, all positions in [-2^q, 2^q) + '
+          'out-of-range, int / np.int64; large q in {5..200} x ~28 sampled positions (exact integer bits), positions >= 2^53 '
+          'in a separate clause; poly: 9 shapes x integer/float shifts (number/list/ndarray) x powers 0..4, -2..-1, 0.5, '
+          '1.5, 7, 10 (13, 20) x scales 0, 1e-300..1e300, shifts up to 1e8, d<=100 (200) sampled vs Fractions; random '
+          'constructors: 8 shapes x scalar/list/ndarray ranks x seeds + d=100 / n=600, extreme a/b and m/s, seed as '
+          'int/Generator/None; rand_stab d in {2..100} (1000 thorough), noise 0, 1e-300..0.5; defaults of all constructors')
 
 EPS = np.finfo(float).eps
 
@@ -38,6 +62,9 @@ SHAPES = [[2, 2], [2, 3], [3, 2], [1, 1], [1, 3], [4, 1], [2, 2, 2], [3, 1, 2], 
           [2, 2, 2, 2], [3, 2, 1, 2], [2, 2, 2, 2, 2]]
 VALUES = [1.0, -1.0, 2.0, -2.0, 0.0, -0.0, 3, -3, 0, 0.37, -5.25e3, 1e-300, -1e-300, 1e-17, 1e-16, 1.0000001e-16,
           -2e-16, 1e300, -1e150]
+VALUES_X = [1e8, -1e8, 1e-8, -1e-8, -1e300, 1e-12, -1e-15, 5e-324]      # overall scales, smallest subnormal
+SHAPES_X = [[3], [1], [600, 2], [2, 513, 1]]                             # d = 1 (outside the stated d >= 2), big modes
+MANY_V = [2.5, -2.5, 1e300, -1e300, 1e-300, -1e-17, 0.0]
 
 
 def _vtol(v, d):
@@ -143,14 +170,16 @@ def const_zero_random(n, v, rows, protect, conflict, seed, as_array):
 
 
 @clause('C19.delta.exhaustive', funcs=('tensors.delta',))
-def delta_exhaustive(n, v, negative):
-    """v at the position, exact zero elsewhere, for every position (optionally written with negative
-    NumPy-style components counted from the end)."""
+def delta_exhaustive(n, v, negative, n_array=False):
+    """v at the position, exact zero elsewhere, for every position (negative = 1: every other component written
+    NumPy-style counted from the end, 2: all components negative); position as list and ndarray, shape as list
+    or ndarray."""
     d = len(n)
+    neg = int(negative)
     for pos in gen.all_indices(n).tolist():
-        arg = [p - k if negative and (p + j) % 2 == 0 else p for j, (p, k) in enumerate(zip(pos, n))]
+        arg = [p - k if neg == 2 or (neg == 1 and (p + j) % 2 == 0) else p for j, (p, k) in enumerate(zip(pos, n))]
         for a in (arg, np.array(arg)):
-            Y = teneva.delta(list(n), a, v)
+            Y = teneva.delta(np.array(n) if n_array else list(n), a, v)
             msg = _rank_one(Y, n)
             if msg:
                 return FAIL(f'position {arg}: ' + msg)
@@ -176,14 +205,14 @@ def _norm_pos(q, i):
 
 @clause('C19.vector_delta.exhaustive', funcs=('vectors.vector_delta', 'utils._vector_index_prepare',
                                               'utils._vector_index_expand'))
-def vector_delta_exhaustive(q, v):
+def vector_delta_exhaustive(q, v, np_int=False):
     """QTT vector of length 2^q: v at position i (negative i counted from the end), 0 elsewhere, for all
-    i in [-2^q, 2^q); positions outside raise ValueError."""
+    i in [-2^q, 2^q); positions outside raise ValueError.  np_int: positions given as np.int64."""
     n = 1 << q
     for i in list(range(-n - 3, n + 4)) + [4 * n, -4 * n, 10 ** 6, -10 ** 6]:
         want = _norm_pos(q, i)
         try:
-            Y = teneva.vector_delta(q, i, v)
+            Y = teneva.vector_delta(q, np.int64(i) if np_int else i, v)
         except ValueError:
             if want is not None:
                 return FAIL(f'q={q} i={i}: ValueError for a position in range')
@@ -204,7 +233,7 @@ def vector_delta_exhaustive(q, v):
 
 @clause('C19.matrix_delta.exhaustive', funcs=('matrices.matrix_delta', 'utils._vector_index_prepare',
                                               'utils._vector_index_expand'))
-def matrix_delta_exhaustive(q, v):
+def matrix_delta_exhaustive(q, v, np_int=False):
     """QTT matrix 2^q x 2^q with 4-D cores (1,2,2,1): A[i, j] = prod_k G_k[0, i_k, j_k, 0] (little-endian
     bits) equals v at (i, j), 0 elsewhere; negative positions from the end; out of range -> ValueError."""
     n = 1 << q
@@ -213,7 +242,7 @@ def matrix_delta_exhaustive(q, v):
     for i, j in list(itertools.product(rng_, rng_)) + extra:
         wi, wj = _norm_pos(q, i), _norm_pos(q, j)
         try:
-            Y = teneva.matrix_delta(q, i, j, v)
+            Y = teneva.matrix_delta(q, np.int64(i) if np_int else i, np.int64(j) if np_int else j, v)
         except ValueError:
             if wi is not None and wj is not None:
                 return FAIL(f'q={q} (i,j)=({i},{j}): ValueError for a position in range')
@@ -235,10 +264,13 @@ def matrix_delta_exhaustive(q, v):
 
 
 @clause('C19.poly.value', funcs=('tensors.poly',))
-def poly_value(n, shift, power, scale):
-    """dense == scale * sum_k (i_k + shift_k)^power; exact (==) when shift, power, scale are integers."""
+def poly_value(n, shift, power, scale, n_array=False, shift_array=False):
+    """dense == scale * sum_k (i_k + shift_k)^power; exact (==) when shift, power, scale are integers (values below
+    2^52), otherwise within 16 (d+2) eps of the sum of the moduli of the terms.  Shape as list / ndarray, shift as
+    number / list / ndarray; power may be negative or fractional when all bases i_k + shift_k are positive."""
     d = len(n)
-    Y = teneva.poly(list(n), shift, power, scale)
+    Y = teneva.poly(np.array(n) if n_array else list(n),
+                    np.array(shift, dtype=float) if shift_array and isinstance(shift, list) else shift, power, scale)
     msg = gen.wf(Y, n)
     if msg:
         return FAIL(msg)
@@ -250,10 +282,11 @@ def poly_value(n, shift, power, scale):
     if integer:
         want = [int(scale) * sum((int(i) + int(s)) ** power for i, s in zip(row, sh)) for row in I]
         got = D[tuple(I.T)]
-        if max(abs(w) for w in want) < 2 ** 52 and not all(float(w) == g for w, g in zip(want, got)):
-            k = [float(w) == g for w, g in zip(want, got)].index(False)
-            return FAIL(f'entry {I[k].tolist()}: {got[k]!r} != exact {want[k]}')
-        return PASS
+        if max(abs(w) for w in want) < 2 ** 52:
+            if not all(float(w) == g for w, g in zip(want, got)):
+                k = [float(w) == g for w, g in zip(want, got)].index(False)
+                return FAIL(f'entry {I[k].tolist()}: {got[k]!r} != exact {want[k]}')
+            return PASS
     terms = np.array([[(float(i) + float(s)) ** power for i, s in zip(row, sh)] for row in I])
     want = scale * terms.sum(axis=1)
     mag = abs(scale) * np.abs(terms).sum(axis=1)
@@ -298,23 +331,25 @@ def rand_range(n, r, a, b, seed, as_array):
     x = np.concatenate([G.reshape(-1) for G in Y])
     if not (x.min() >= a and x.max() <= b):
         return FAIL(f'entries [{x.min()}, {x.max()}] outside [{a}, {b}]')
-    if x.size >= 200:
+    if x.size >= 200 and b > a:
         w = b - a
-        if x.min() > a + w / 4 or x.max() < b - w / 4:
+        if not (x.min() <= a + w / 4 and x.max() >= b - w / 4):
             return FAIL(f'{x.size} entries cover only [{x.min()}, {x.max()}] of [{a}, {b}]')
-        if abs(x.mean() - (a + b) / 2) > 7 * w / math.sqrt(12 * x.size):
-            return FAIL(f'mean {x.mean()} too far from {(a + b) / 2} for {x.size} uniform entries')
-        if len(np.unique(x)) < 0.99 * x.size:
+        if not abs(x.mean() - (a / 2 + b / 2)) <= 7 * w / math.sqrt(12 * x.size):
+            return FAIL(f'mean {x.mean()} too far from {a / 2 + b / 2} for {x.size} uniform entries')
+        if not len(np.unique(x)) >= 0.99 * x.size:
             return FAIL('repeated values')
         return PASS
     return TRIVIAL('too few entries for the spread check') if x.size < 8 else PASS
 
 
 @clause('C19.rand_norm.distribution', funcs=('tensors.rand_norm', 'tensors.rand_custom'))
-def rand_norm_distribution(n, r, m, s, seed):
+def rand_norm_distribution(n, r, m, s, seed, as_array=False):
     """rand_norm: structure as requested; for N >= 2000 entries: mean within 7 s/sqrt(N), std within
-    7 s/sqrt(2N) (+1/N), fraction inside one sigma within 7 binomial sigmas of 0.6827 (excludes a uniform law)."""
-    Y = teneva.rand_norm(list(n), r, m, s, seed=seed)
+    7 s/sqrt(2N) (+1/N), fraction inside one sigma within 7 binomial sigmas of 0.6827 (excludes a uniform law).
+    as_array: shape and per-bond ranks as ndarrays."""
+    Y = teneva.rand_norm(np.array(n) if as_array else list(n), np.array(r) if as_array and isinstance(r, list) else r,
+                         m, s, seed=seed)
     msg = _structure(Y, n, r)
     if msg:
         return FAIL(msg)
@@ -322,21 +357,22 @@ def rand_norm_distribution(n, r, m, s, seed):
     N = x.size
     if N < 300:
         return TRIVIAL(f'{N} entries: structure only')
-    if abs(x.mean() - m) > 7 * s / math.sqrt(N):
+    z = (x - m) / s             # standardised: no over-/underflow of squares for s = 1e-300 .. 1e100
+    if not abs(z.mean()) <= 7 / math.sqrt(N) + 4 * EPS * abs(m) / s:
         return FAIL(f'mean {x.mean()} vs m={m} (N={N}, s={s})')
-    if abs(x.std() / s - 1) > 7 / math.sqrt(2 * N) + 2.0 / N:
+    if not abs(z.std() - 1) <= 7 / math.sqrt(2 * N) + 2.0 / N + 4 * EPS * abs(m) / s:
         return FAIL(f'std {x.std()} vs s={s} (N={N})')
     p = 0.6826894921370859
-    frac = np.mean(np.abs(x - m) <= s)
-    if abs(frac - p) > 7 * math.sqrt(p * (1 - p) / N):
+    frac = np.mean(np.abs(z) <= 1)
+    if not abs(frac - p) <= 7 * math.sqrt(p * (1 - p) / N):
         return FAIL(f'mass within one sigma {frac} vs {p} (N={N})')
     return PASS
 
 
 @clause('C19.rand_custom.uses_f', funcs=('tensors.rand_custom',))
-def rand_custom_uses_f(n, r, seed, ret_list):
+def rand_custom_uses_f(n, r, seed, ret_list, as_array=False):
     """rand_custom: f is called once with the total number of core entries; the cores hold exactly the values
-    f returned (as a multiset, each once); structure as requested."""
+    f returned (as a multiset, each once); structure as requested.  as_array: shape / per-bond ranks as ndarrays."""
     g = gen.rng('C19rc', n, r, seed)
     calls = []
 
@@ -344,7 +380,8 @@ def rand_custom_uses_f(n, r, seed, ret_list):
         v = g.permutation(int(size)).astype(float) + 0.5
         calls.append(v.copy())
         return v.tolist() if ret_list else v
-    Y = teneva.rand_custom(list(n), r, f)
+    Y = teneva.rand_custom(np.array(n) if as_array else list(n),
+                           np.array(r) if as_array and isinstance(r, list) else r, f)
     msg = _structure(Y, n, r)
     if msg:
         return FAIL(msg)
@@ -364,14 +401,15 @@ def _chain(Y, idx):
 
 
 @clause('C19.rand_stab.ones', funcs=('tensors.rand_stab',))
-def rand_stab_ones(d, nk, r, noise, seed):
+def rand_stab_ones(d, nk, r, noise, seed, as_array=False):
     """rand_stab: structure as requested; every slice = rectangular identity + N(0, noise) (exactly the identity
     for noise 0; level checked at 7 sigma when >= 2000 entries); entries of the dense tensor equal 1 within the
     rigorous bound prod_k (1 + max_p ||G_k[:,p,:] - I||_2) - 1, on the whole tensor (small d) or 64 sampled
     multi-indices (d up to 50)."""
     n = [nk] * d if isinstance(nk, int) else list(nk)
     d = len(n)
-    Y = teneva.rand_stab(list(n), r, noise, seed=seed)
+    Y = teneva.rand_stab(np.array(n) if as_array else list(n), np.array(r) if as_array and isinstance(r, list) else r,
+                         noise, seed=seed)
     msg = _structure(Y, n, r)
     if msg:
         return FAIL(msg)
@@ -388,15 +426,15 @@ def rand_stab_ones(d, nk, r, noise, seed):
         if not np.abs(x).max() <= 8 * noise:
             return FAIL(f'deviation from the identity pattern {np.abs(x).max():.3e} > 8 * noise={noise}')
         if x.size >= 2000:
-            if abs(x.mean()) > 7 * noise / math.sqrt(x.size) + EPS:
+            if not abs(x.mean()) <= 7 * noise / math.sqrt(x.size) + EPS:
                 return FAIL(f'noise mean {x.mean():.3e} (noise={noise}, N={x.size})')
             # for noise << eps the added noise is absorbed by the 1.0 on the pattern entries: exclude them
             off = np.concatenate([(G - np.eye(G.shape[0], G.shape[2])[:, None, :])[
                 np.broadcast_to(np.eye(G.shape[0], G.shape[2])[:, None, :] == 0, G.shape)] for G in Y])
-            if off.size >= 2000 and abs(off.std() / noise - 1) > 7 / math.sqrt(2 * off.size) + 2.0 / off.size:
+            if off.size >= 2000 and not abs((off / noise).std() - 1) <= 7 / math.sqrt(2 * off.size) + 2.0 / off.size:
                 return FAIL(f'noise level {off.std():.3e} vs requested {noise}')
     tol = (bound - 1.0) + 4 * d * max(_want_profile(n, r)) * EPS * bound
-    if int(np.prod([float(k) for k in n])) <= 4096:
+    if math.prod(int(k) for k in n) <= 4096:
         D = gen.dense(Y)
         err = float(np.abs(D - 1).max())
     else:
@@ -408,9 +446,462 @@ def rand_stab_ones(d, nk, r, noise, seed):
         err = max(err, abs(_chain(Y, [0] * d) - 1), abs(_chain(Y, [k - 1 for k in n]) - 1))
     if not err <= tol:
         return FAIL(f'entry deviates from 1 by {err:.3e} > bound {tol:.3e} (d={d}, r={r}, noise={noise})')
-    if noise <= 1e-3 and err > 0.5:
+    if noise <= 1e-3 and not err <= 0.5:
         return FAIL(f'entries not of order one: |x-1| = {err}')
     return PASS
+
+# ----------------------------------------------------------------------------------------------------------------
+# many modes / large quantisation levels: the dense tensor cannot be formed, but a tensor whose TT-ranks are all 1
+# is completely described by its factor vectors: entry(i) = prod_k c_k[i_k]  (direct definition)
+
+def _shape_of(d, nk):
+    return [int(nk)] * d if isinstance(nk, int) else [int(nk[k % len(nk)]) for k in range(d)]
+
+
+def _vecs(Y):
+    return [np.asarray(G, dtype=float).reshape(-1) for G in Y]
+
+
+def _prod(xs):
+    p = 1.0
+    for x in xs:
+        p *= float(x)
+    return p
+
+
+def _delta_rank1(vecs, pos, v, tol):
+    """None iff the rank-1 tensor with factor vectors `vecs` is v at pos and exactly 0 elsewhere."""
+    if v == 0:
+        hi = _prod(np.abs(c).max() for c in vecs)
+        return None if hi == 0 else f'v=0 but an entry of modulus {hi} exists'
+    for k, c in enumerate(vecs):
+        nz = np.flatnonzero(c != 0).tolist()
+        if nz != [pos[k]]:
+            return f'factor {k}: non-zeros at {nz[:4]}, wanted only at {pos[k]}'
+    got = _prod(c[pos[k]] for k, c in enumerate(vecs))
+    if not abs(got - float(v)) <= tol:
+        return f'entry at the position is {got!r} instead of {v!r} (tol {tol:.3e})'
+    return None
+
+
+def _const_rank1(vecs, v, tol, rows, inz):
+    """None iff the rank-1 tensor takes only the values v (within tol) and exact 0, is 0 at every row of `rows`
+    (all entries v if rows is None) and v at inz."""
+    if v == 0:
+        hi = _prod(np.abs(c).max() for c in vecs)
+        return None if hi == 0 else f'v=0 but an entry of modulus {hi} exists'
+    sign, lo, hi, empty = 1.0, 1.0, 1.0, False
+    for k, c in enumerate(vecs):
+        if not np.all(np.isfinite(c)):
+            return f'factor {k} not finite'
+        nzv = c[c != 0]
+        if rows is None and nzv.size != c.size:
+            return f'factor {k} has zeros at {np.flatnonzero(c == 0).tolist()[:4]} but no zero list was given'
+        if nzv.size == 0:
+            empty = True
+            continue
+        if not (np.all(nzv > 0) or np.all(nzv < 0)):
+            return f'factor {k} has entries of both signs: values v and -v occur'
+        sign *= 1.0 if nzv[0] > 0 else -1.0
+        lo *= float(np.abs(nzv).min())
+        hi *= float(np.abs(nzv).max())
+    if empty:       # the whole tensor is zero: legitimate only if nothing has to stay v
+        if inz is not None:
+            return 'tensor is identically zero although a protected index was given'
+    else:
+        for w in (lo, hi):
+            if not abs(sign * w - float(v)) <= tol:
+                return f'non-zero entries range over [{sign * lo!r}, {sign * hi!r}], not v={v!r} (tol {tol:.3e})'
+    for r in rows or []:
+        if not any(c[r[k]] == 0 for k, c in enumerate(vecs)):
+            return f'entry at listed zero index (modes 0..3: {list(r)[:4]}...) is not 0'
+    if inz is not None and not all(c[inz[k]] != 0 for k, c in enumerate(vecs)):
+        return 'entry at the protected index is 0'
+    return None
+
+
+@clause('C19.const.many_modes', funcs=('tensors.const',))
+def const_many_modes(d, nk, v, rows, protect, near, seed, as_array):
+    """const with many modes / large mode sizes (d up to 100, n up to 600): exact description of the rank-1 result
+    through its factor vectors: all entries v (product over d cores neither over- nor underflows for |v| from
+    1e-300 to 1e300), with a zero list: values in {v, 0}, 0 at the listed rows, v at the protected index.
+    near: the listed rows differ from the protected index in exactly one mode (needs up to d-1 round-robin skips),
+    never a ValueError."""
+    n = _shape_of(d, nk)
+    g = gen.rng('C19cm', d, nk, rows, seed)
+    inz = [int(g.integers(k)) for k in n] if protect else None
+    R = None
+    if rows:
+        R, wide = [], [k for k in range(d) if n[k] >= 2]
+        for j in range(rows):
+            if near and protect and wide:
+                row = list(inz)
+                k = wide[-1 - j] if j < len(wide) else wide[int(g.integers(len(wide)))]
+                row[k] = (row[k] + 1 + int(g.integers(n[k] - 1))) % n[k]
+            else:
+                row = [int(g.integers(k)) for k in n]
+                if protect and row == inz:
+                    continue
+            R.append(row)
+    Iz = None if R is None else (np.array(R, dtype=int).reshape(-1, d) if as_array else R)
+    try:
+        Y = teneva.const(np.array(n) if as_array else list(n), v, Iz, np.array(inz) if as_array and protect else inz)
+    except ValueError as e:
+        return FAIL(f'ValueError({e}) although the protected index is not listed')
+    msg = _rank_one(Y, n)
+    if msg:
+        return FAIL('not a rank-1 tensor of the requested shape: ' + msg)
+    msg = _const_rank1(_vecs(Y), v, _vtol(v, d), R, inz)
+    return FAIL(msg) if msg else PASS
+
+
+@clause('C19.const.arg_forms', funcs=('tensors.const',))
+def const_arg_forms(form, n, v, seed):
+    """Documented argument forms of const that the other clauses do not combine: empty zero list (list / ndarray of
+    shape 0 x d) -> all v; protected index without zero list -> all v; list rows with ndarray protected index and
+    vice versa; shape as ndarray together with a zero list; int32 index arrays; v as NumPy scalar (float64/int64)."""
+    d = len(n)
+    g = gen.rng('C19af', form, n, seed)
+    idx = gen.all_indices(n).tolist()
+    inz = idx[int(g.integers(len(idx)))]
+    pool = [r for r in idx if r != inz]
+    rows = [pool[int(g.integers(len(pool)))] for _ in range(3)] if pool else []
+    nn, vv, Iz, pz, R = list(n), v, rows, inz, rows
+    if form == 'empty_list':
+        Iz, R = [], []
+    elif form == 'empty_array':
+        Iz, R = np.zeros((0, d), dtype=int), []
+    elif form == 'nz_only':
+        Iz, R = None, None
+    elif form == 'rows_list_nz_array':
+        pz = np.array(inz)
+    elif form == 'rows_array_nz_list':
+        Iz = np.array(rows, dtype=int).reshape(-1, d)
+    elif form == 'n_array':
+        nn = np.array(n)
+    elif form == 'int32':
+        Iz, pz = np.array(rows, dtype=np.int32).reshape(-1, d), np.array(inz, dtype=np.int32)
+    elif form == 'v_float64':
+        vv = np.float64(v)
+    elif form == 'v_int64':
+        vv, v = np.int64(round(v)), int(round(v))
+    else:
+        return FAIL('unknown form ' + form)
+    Y = teneva.const(nn, vv, Iz, pz)
+    msg = _rank_one(Y, n)
+    if msg:
+        return FAIL('not rank-1 / shape: ' + msg)
+    D = gen.dense(Y)
+    tol = _vtol(v, d)
+    if v == 0:
+        return check(bool(np.all(D == 0)), 'v=0 but non-zero entries')
+    okv = np.abs(D - float(v)) <= tol
+    if not R:
+        return check(bool(np.all(okv)), f'no zero index requested but entries {D[~okv][:3]} differ from v={v}')
+    if not np.all(okv | (D == 0)):
+        return FAIL(f'values outside {{v, 0}}: {D[~(okv | (D == 0))][:3]}')
+    if any(D[tuple(r)] != 0 for r in R):
+        return FAIL(f'a listed zero index of {R} is not 0')
+    return check(bool(okv[tuple(inz)]), f'protected index {inz} holds {D[tuple(inz)]} instead of {v}')
+
+
+@clause('C19.delta.many_modes', funcs=('tensors.delta',))
+def delta_many_modes(d, nk, v, negative, seed, as_array):
+    """delta with many modes / large mode sizes (d = 1 .. 100, n up to 600): factor vectors of the rank-1 result
+    have their only non-zero at the position (given with 0 / alternating / all negative components, as list or
+    ndarray), the product over the d cores equals v (|v| from 1e-300 to 1e300), everything is 0 for v = 0."""
+    n = _shape_of(d, nk)
+    g = gen.rng('C19dm', d, nk, seed)
+    pos = [int(g.integers(k)) for k in n]
+    for corner in (None, 0, -1):
+        p = pos if corner is None else [0 if corner == 0 else k - 1 for k in n]
+        arg = [x - k if negative == 2 or (negative == 1 and j % 2 == 0) else x for j, (x, k) in enumerate(zip(p, n))]
+        Y = teneva.delta(np.array(n) if as_array else list(n), np.array(arg) if as_array else arg, v)
+        msg = _rank_one(Y, n)
+        if msg:
+            return FAIL('not a rank-1 tensor of the requested shape: ' + msg)
+        msg = _delta_rank1(_vecs(Y), p, v, _vtol(v, d))
+        if msg:
+            return FAIL(f'position (first modes) {arg[:4]}: ' + msg)
+    return PASS
+
+
+def _bits(q, w):
+    return [(w >> k) & 1 for k in range(q)]
+
+
+def _big_positions(q, seed, low):
+    """positions of a vector of length N = 2^q, written both non-negative and negative; low: normalised position
+    below 2^53 (any q), otherwise at least 2^53 (empty unless q >= 54)"""
+    N, T = 1 << q, 1 << 53
+    g = gen.rng('C19bp', q, seed, low)
+
+    def big_random():
+        w = 0
+        for _ in range(q // 60 + 1):
+            w = (w << 60) | int(g.integers(0, 1 << 60))
+        return w % N
+    if low:
+        top = min(N, T)
+        W = [0, top - 1, 1, top - 2, top >> 1, (top >> 1) - 1, (top >> 1) + 1, 2]
+        W += [x for x in ((1 << 31) - 1, 1 << 31, (1 << 32) + 1, (1 << 52) + 12345) if x < top]
+        W += [big_random() % top for _ in range(8)]
+    else:
+        if N <= T:
+            return []
+        W = [N - 1, T + 3, N - 2, T, N >> 1, (N >> 1) + 1, T + 1, N - T - 1]
+        W += [x for x in ((1 << 54) + 3, (1 << 63) - 1, (1 << 63) + 12345, (1 << 64) + 1) if x < N]
+        W += [w for w in (big_random() for _ in range(8)) if w >= T]
+    return [w for w in W if 0 <= w < N] + [w - N for w in W[::2] if 0 <= w < N]
+
+
+def _vd_big(q, v, P, matrix):
+    N = 1 << q
+    for i in P:
+        for j in ((P[len(P) // 2], i) if matrix else (None,)):
+            try:
+                Y = teneva.matrix_delta(q, i, j, v) if matrix else teneva.vector_delta(q, i, v)
+            except ValueError as e:
+                return f'q={q} i={i}' + (f' j={j}' if matrix else '') + f': ValueError({e}) for a position in range'
+            shp = (1, 2, 2, 1) if matrix else (1, 2, 1)
+            if not isinstance(Y, list) or len(Y) != q or any(
+                    not isinstance(G, np.ndarray) or G.shape != shp or G.dtype.kind != 'f' for G in Y):
+                return f'q={q} i={i}: cores {[getattr(G, "shape", None) for G in Y][:4]}...'
+            bi = _bits(q, i % N)
+            pos = [2 * a + b for a, b in zip(bi, _bits(q, j % N))] if matrix else bi
+            msg = _delta_rank1(_vecs(Y), pos, v, _vtol(v, q))
+            if msg:
+                got = sum(int(np.flatnonzero(c != 0)[0] // (2 if matrix else 1)) << k for k, c in enumerate(_vecs(Y))
+                          if np.any(c != 0)) if v != 0 else None
+                return (f'q={q} i={i} (normalised {i % N})' + (f' j={j}' if matrix else '') + ': ' + msg
+                        + (f'; non-zero sits at row/position {got}' if got is not None else ''))
+    for i in (N, -N - 1, N + (1 << 53) + 1, -(1 << (q + 1)), 3 * N):
+        for args in (((i, 0), (0, i)) if matrix else ((i,),)):
+            try:
+                (teneva.matrix_delta if matrix else teneva.vector_delta)(q, *args, v)
+            except ValueError:
+                continue
+            return f'q={q} position {args} out of range but no ValueError'
+    return None
+
+
+@clause('C19.vector_delta.large_q', funcs=('vectors.vector_delta', 'utils._vector_index_prepare',
+                                           'utils._vector_index_expand'))
+def vector_delta_large_q(q, v, seed):
+    """vector_delta for large quantisation levels (q up to 200), positions whose normalised value is below 2^53
+    (incl. -2^q, 2^31 / 2^32 neighbours): bit k of the position selects the non-zero of core k (exact Python
+    integers), value v, out-of-range positions raise ValueError."""
+    P = _big_positions(q, seed, True)
+    msg = _vd_big(q, v, P, False)
+    return FAIL(msg) if msg else PASS
+
+
+@clause('C19.vector_delta.pos_ge_2p53', funcs=('vectors.vector_delta', 'utils._vector_index_expand'))
+def vector_delta_pos_ge_2p53(q, v, seed):
+    """same for q >= 54 and positions whose normalised value is >= 2^53 (e.g. -1, 2^q - 1, 2^53 + 3)."""
+    P = _big_positions(q, seed, False)
+    if not P:
+        return SKIP('q < 54')
+    msg = _vd_big(q, v, P, False)
+    return FAIL(msg) if msg else PASS
+
+
+@clause('C19.matrix_delta.large_q', funcs=('matrices.matrix_delta', 'utils._vector_index_prepare',
+                                           'utils._vector_index_expand'))
+def matrix_delta_large_q(q, v, seed):
+    """matrix_delta for large q, row / column positions with normalised value below 2^53: core k is non-zero
+    only at (bit k of i, bit k of j); value v; out-of-range row or column raises ValueError."""
+    P = _big_positions(q, seed, True)
+    msg = _vd_big(q, v, P[:10] + P[-4:], True)
+    return FAIL(msg) if msg else PASS
+
+
+@clause('C19.matrix_delta.pos_ge_2p53', funcs=('matrices.matrix_delta', 'utils._vector_index_expand'))
+def matrix_delta_pos_ge_2p53(q, v, seed):
+    """same for q >= 54 and row / column positions >= 2^53."""
+    P = _big_positions(q, seed, False)
+    if not P:
+        return SKIP('q < 54')
+    msg = _vd_big(q, v, P[:12] + P[-4:], True)
+    return FAIL(msg) if msg else PASS
+
+
+@clause('C19.index_helpers.bits', funcs=('utils._vector_index_prepare', 'utils._vector_index_expand'))
+def index_helpers_bits(q, seed):
+    """_vector_index_prepare: i -> i (i >= 0) or 2^q + i (i < 0), ValueError outside [-2^q, 2^q);
+    _vector_index_expand of the normalised position: the q little-endian bits (list of length q of 0/1); expand of a
+    non-negative value >= 2^q raises ValueError.  All positions for q <= 6, sampled ones below 2^53 beyond."""
+    N = 1 << q
+    P = list(range(-N - 2, N + 3)) if q <= 6 else _big_positions(q, seed, True) + [N, -N - 1, 2 * N + 1]
+    for i in P:
+        want = _norm_pos(q, i)
+        try:
+            w = teneva._vector_index_prepare(q, i)
+        except ValueError:
+            if want is not None:
+                return FAIL(f'prepare(q={q}, {i}): ValueError for a position in range')
+            continue
+        if want is None:
+            return FAIL(f'prepare(q={q}, {i}) = {w}: out of range but no ValueError')
+        if isinstance(w, bool) or int(w) != want:
+            return FAIL(f'prepare(q={q}, {i}) = {w!r}, wanted {want}')
+        ind = teneva._vector_index_expand(q, w)
+        if [int(b) for b in ind] != _bits(q, want):
+            return FAIL(f'expand(q={q}, {w}) = {list(ind)[:8]}.., wanted {_bits(q, want)[:8]}..')
+    for w in (N, N + 1, 3 * N):
+        if w < (1 << 53):
+            try:
+                teneva._vector_index_expand(q, w)
+            except ValueError:
+                continue
+            return FAIL(f'expand(q={q}, {w}): value needs more than q bits but no ValueError')
+    return PASS
+
+
+@clause('C19.poly.many_modes', funcs=('tensors.poly',))
+def poly_many_modes(d, nk, shift_kind, power, scale, seed):
+    """poly with many modes (d up to 100) / large mode sizes: value at sampled multi-indices (incl. both corners),
+    evaluated by the chain of slices, against scale * sum_k (i_k + shift_k)^power computed with exact Fractions
+    (shifts are dyadic); shift as number / list / ndarray."""
+    from fractions import Fraction
+    n = _shape_of(d, nk)
+    g = gen.rng('C19pm', d, nk, shift_kind, seed)
+    if shift_kind == 'number':
+        sh = [0.5] * d
+        arg = 0.5
+    else:
+        sh = [float(g.integers(-8, 9)) / 4 for _ in range(d)]
+        arg = np.array(sh) if shift_kind == 'array' else list(sh)
+    Y = teneva.poly(np.array(n) if shift_kind == 'array' else list(n), arg, power, scale)
+    msg = gen.wf(Y, n)
+    if msg:
+        return FAIL(msg)
+    if not gen.finite(Y):
+        return FAIL('non-finite cores')
+    S = [[0] * d, [k - 1 for k in n]] + [[int(g.integers(k)) for k in n] for _ in range(8)]
+    for idx in S:
+        terms = [(Fraction(i) + Fraction(s)) ** power for i, s in zip(idx, sh)]
+        want = Fraction(scale) * sum(terms)
+        mag = abs(Fraction(scale)) * sum(abs(t) for t in terms)
+        got = _chain(Y, idx)
+        if not abs(Fraction(got) - want) <= Fraction(16 * (d + 2) * EPS) * mag:
+            return FAIL(f'entry {idx[:4]}..: {got!r} vs exact {float(want)!r} (sum of |terms| {float(mag):.3e})')
+    return PASS
+
+
+def _same(Y1, Y2):
+    return len(Y1) == len(Y2) and all(G.shape == H.shape and np.array_equal(G, H) for G, H in zip(Y1, Y2))
+
+
+@clause('C19.rand.seed_forms', funcs=('tensors.rand', 'tensors.rand_norm', 'tensors.rand_stab', 'utils._rand'))
+def rand_seed_forms(fn, n, r, seed, bitgen):
+    """seed as int / Generator / None for rand, rand_norm, rand_stab: structure as requested in every form; the same
+    int seed twice gives the same tensor, different int seeds different ones; a Generator instance (PCG64 or MT19937)
+    is really consumed (equal fresh generators give equal tensors, the state advances, a second call on the same
+    generator gives another tensor); seed=None gives fresh values on every call; the global NumPy state is untouched."""
+    def call(sd):
+        if fn == 'rand':
+            return teneva.rand(list(n), r, -2., 3., seed=sd)
+        if fn == 'rand_norm':
+            return teneva.rand_norm(list(n), r, 1., 2., seed=sd)
+        return teneva.rand_stab(list(n), r, 1e-3, seed=sd)
+
+    def fresh():
+        return np.random.Generator(np.random.MT19937(seed) if bitgen == 'mt' else np.random.PCG64(seed))
+    glob = gen.snapshot(list(np.random.get_state()))
+    Y1, Y2, Y3 = call(seed), call(seed), call(seed + 1)
+    g1, g2 = fresh(), fresh()
+    s0 = repr(g1.bit_generator.state)
+    Ya, Yb = call(g1), call(g2)
+    s1 = repr(g1.bit_generator.state)
+    Yc = call(g1)
+    Yn, Ym = call(None), call(None)
+    for nm, Y in (('int', Y1), ('int+1', Y3), ('generator', Ya), ('generator 2nd call', Yc), ('None', Yn)):
+        msg = _structure(Y, n, r)
+        if msg:
+            return FAIL(f'seed form {nm}: ' + msg)
+        x = np.concatenate([G.reshape(-1) for G in Y])
+        if fn == 'rand' and not (x.min() >= -2. and x.max() <= 3.):
+            return FAIL(f'seed form {nm}: entries outside [-2, 3]')
+    if gen.snapshot(list(np.random.get_state())) != glob:
+        return FAIL('global NumPy random state modified')
+    if not _same(Y1, Y2):
+        return FAIL('same int seed, different tensors')
+    if not _same(Ya, Yb):
+        return FAIL('equal fresh Generator instances, different tensors')
+    if sum(G.size for G in Y1) < 4:
+        return TRIVIAL('too few entries to tell tensors apart')
+    if s1 == s0:
+        return FAIL('the given Generator was not advanced')
+    for nm, A, B in (('seeds s and s+1', Y1, Y3), ('two calls on one Generator', Ya, Yc), ('seed=None twice', Yn, Ym),
+                     ('seed=None and an int seed', Yn, Y1)):
+        if _same(A, B):
+            return FAIL(f'{nm}: identical tensors')
+    return PASS
+
+
+@clause('C19.defaults', funcs=('tensors.const', 'tensors.delta', 'tensors.poly', 'tensors.rand', 'tensors.rand_norm',
+                               'tensors.rand_stab', 'tensors.rand_custom', 'vectors.vector_delta',
+                               'matrices.matrix_delta'))
+def defaults(which, seed):
+    """Documented default values: const v=1, delta v=1, poly shift=0 power=2 scale=1, rand [-1, 1], rand_norm N(0,1),
+    rand_stab noise 1e-15, rand_custom f = standard normal sampler (structure only), vector_delta / matrix_delta v=1."""
+    n, r = [6, 5, 7, 6], [1, 8, 9, 8, 1]
+    if which == 'const':
+        return check(bool(np.all(gen.dense(teneva.const([2, 3, 2])) == 1)), 'const(n) is not all ones')
+    if which == 'const_zero':
+        D = gen.dense(teneva.const([2, 3], I_zero=[[1, 2]], i_non_zero=[0, 2]))
+        return check(D[1, 2] == 0 and D[0, 2] == 1 and bool(np.all((D == 0) | (D == 1))), f'{D.tolist()}')
+    if which == 'delta':
+        E = np.zeros((2, 3, 2))
+        E[1, 2, 0] = 1
+        return check(np.array_equal(gen.dense(teneva.delta([2, 3, 2], [1, 2, 0])), E), 'delta(n, i) is not 1 at i')
+    if which in ('poly', 'poly_shift', 'poly_shift_power'):
+        nn = [3, 2, 4]
+        a = {'poly': (), 'poly_shift': (1.5,), 'poly_shift_power': (1.5, 3)}[which]
+        sh, pw = a[0] if len(a) > 0 else 0., a[1] if len(a) > 1 else 2
+        I = gen.all_indices(nn)
+        want = ((I + sh) ** pw).sum(axis=1)
+        got = gen.dense(teneva.poly(nn, *a))[tuple(I.T)]
+        return check(np.array_equal(got, want), f'poly{(nn,) + a}: {got[:4]} vs {want[:4]}')
+    if which in ('rand', 'rand_norm', 'rand_custom'):
+        Y = teneva.rand(n, r, seed=seed) if which == 'rand' else teneva.rand_norm(n, r, seed=seed) \
+            if which == 'rand_norm' else teneva.rand_custom(n, r)
+        msg = _structure(Y, n, r)
+        if msg:
+            return FAIL(msg)
+        x = np.concatenate([G.reshape(-1) for G in Y])
+        N = x.size
+        if which == 'rand':
+            ok = x.min() >= -1 and x.max() <= 1 and x.min() <= -0.5 and x.max() >= 0.5 \
+                and abs(x.mean()) <= 7 * 2 / math.sqrt(12 * N)
+            return check(bool(ok), f'rand default range: [{x.min()}, {x.max()}], mean {x.mean()}')
+        if which == 'rand_custom':
+            return check(len(np.unique(x)) >= 0.99 * N, 'default sampler: repeated values')
+        ok = abs(x.mean()) <= 7 / math.sqrt(N) and abs(x.std() - 1) <= 7 / math.sqrt(2 * N) + 2. / N
+        return check(bool(ok), f'rand_norm default: mean {x.mean()} std {x.std()} (N={N})')
+    if which == 'rand_stab':
+        Y = teneva.rand_stab(n, r, seed=seed)
+        msg = _structure(Y, n, r)
+        if msg:
+            return FAIL(msg)
+        off = np.concatenate([(G - np.eye(G.shape[0], G.shape[2])[:, None, :])[
+            np.broadcast_to(np.eye(G.shape[0], G.shape[2])[:, None, :] == 0, G.shape)] for G in Y])
+        ok = np.abs(off).max() <= 8e-15 and abs(off.std() / 1e-15 - 1) <= 7 / math.sqrt(2 * off.size) + 2. / off.size
+        return check(bool(ok), f'default noise level {off.std():.3e}, max {np.abs(off).max():.3e}, wanted 1e-15')
+    if which == 'vector_delta':
+        E = np.zeros(8)
+        E[5] = 1
+        return check(np.array_equal(gen.dense(teneva.vector_delta(3, 5)).reshape(-1, order='F'), E), 'v default')
+    if which == 'matrix_delta':
+        Y = teneva.matrix_delta(2, 1, 2)
+        A = np.ones((1, 1))
+        for G in Y:
+            A = np.kron(G[0, :, :, 0], A)
+        E = np.zeros((4, 4))
+        E[1, 2] = 1
+        return check(np.array_equal(A, E), 'v default')
+    return FAIL('unknown case ' + which)
 
 
 def cases(tier, seed):
@@ -468,8 +959,10 @@ def cases(tier, seed):
             for rep in range(6 if big else 1):
                 a, b = [(-1.0, 1.0), (0.0, 1.0), (2.5, 2.75), (-1e6, 3e6), (-1e-8, 1e-8)][int(g.integers(5))]
                 yield 'C19.rand.range', dict(n=n, r=r, a=a, b=b, seed=rs(), as_array=bool(rep % 2) or r == 5)
-                yield 'C19.rand_norm.distribution', dict(n=n, r=r, m=0.0, s=1.0, seed=rs())
-                yield 'C19.rand_custom.uses_f', dict(n=n, r=r, seed=rs(), ret_list=bool(rep % 2))
+                yield 'C19.rand_norm.distribution', dict(n=n, r=r, m=0.0, s=1.0, seed=rs(),
+                                                         as_array=(d + rep) % 2 == 0)
+                yield 'C19.rand_custom.uses_f', dict(n=n, r=r, seed=rs(), ret_list=bool(rep % 2),
+                                                     as_array=(d + rep) % 2 == 1)
     for n, r in (([6, 6, 6, 6], 8), ([10] * 5, 6), ([3] * 10, [1] + [5, 7] * 4 + [5, 1]), ([40, 40], 30)):
         for m_, s_ in ((0.0, 1.0), (3.0, 0.25), (-1e3, 1e-3), (0.5, 1e4)):
             for rep in range(3 if big else 1):
@@ -479,7 +972,119 @@ def cases(tier, seed):
         for nk in (2, 1, 5):
             for r in (1, 2, 4) + ((7,) if big else ()):
                 for noise in (1e-15, 0.0, 1e-6, 1e-3):
-                    yield 'C19.rand_stab.ones', dict(d=d, nk=nk, r=r, noise=noise, seed=rs())
+                    yield 'C19.rand_stab.ones', dict(d=d, nk=nk, r=r, noise=noise, seed=rs(), as_array=r == 2)
     for nk, r in (([3, 1, 4, 2], [1, 2, 3, 2, 1]), ([2, 2, 2], [1, 4, 2, 1]), ([30, 30, 30], 6), ([12] * 6, 5)):
         for noise in (1e-15, 1e-2):
-            yield 'C19.rand_stab.ones', dict(d=len(nk), nk=nk, r=r, noise=noise, seed=rs())
+            yield 'C19.rand_stab.ones', dict(d=len(nk), nk=nk, r=r, noise=noise, seed=rs(), as_array=noise == 1e-2)
+
+    # ------------------------------------------------------------------ parameter-coverage additions
+    xshapes = [[2, 2], [3, 1, 2], [2, 2, 2, 2], [2, 2, 2, 2, 2]]
+    for n in SHAPES_X:
+        for v in VALUES + VALUES_X:
+            yield 'C19.const.plain', dict(n=n, v=v, as_array=bool(len(n) % 2))
+    for n in SHAPES if big else xshapes:
+        for v in VALUES_X:
+            yield 'C19.const.plain', dict(n=n, v=v, as_array=bool(len(n) % 2))
+        for v in (-2.0, 1e-300, 0.37, 3):
+            yield 'C19.const.plain', dict(n=n, v=v, as_array=not len(n) % 2)
+    for form in ('empty_list', 'empty_array', 'nz_only', 'rows_list_nz_array', 'rows_array_nz_list', 'n_array', 'int32',
+                 'v_float64', 'v_int64'):
+        for n in ([2, 3], [3, 1, 2], [2, 2, 2, 2], [1, 1]):
+            for v in (2.0, -3.0, 1e-300, 0.0):
+                yield 'C19.const.arg_forms', dict(form=form, n=n, v=v, seed=rs())
+    many = [(7, 2), (100, 2), (61, [3, 1, 2]), (2, [600, 2]), (3, [513, 2, 700])] \
+        + ([(6, 2), (12, 2), (61, 2), (60, [3, 1, 2]), (33, [1, 4]), (200, 2), (300, [2, 3])] if big else [])
+    for d, nk in many:
+        for v in MANY_V + [1e-8, -1e8, 1.0000001e-16, 5e-324] if big else MANY_V[1:6]:
+            for rows, protect, near in ((0, False, False), (5, False, False), (5, True, False), (7, True, True))[
+                    0 if big or d > 60 else 1:]:
+                for rep in range(3 if big else 1):
+                    yield 'C19.const.many_modes', dict(d=d, nk=nk, v=v, rows=rows, protect=protect, near=near,
+                                                       seed=rs(), as_array=bool((d + rows + rep) % 2))
+    for n in SHAPES + SHAPES_X[:2]:
+        for v in (1.0, -2.5, 1e-300) + ((1e300, -1e-17, 0.0) if big else ()):
+            yield 'C19.delta.exhaustive', dict(n=n, v=v, negative=2, n_array=True)
+            if len(n) == 1:
+                yield 'C19.delta.exhaustive', dict(n=n, v=v, negative=0, n_array=False)
+    for d, nk in [(1, 5), (2, 3)] + many:
+        for v in MANY_V + [1e-8, -1e8, 1.0000001e-16, 5e-324] if big else MANY_V[1:]:
+            for negative in (0, 1, 2) if big or d > 3 else (1, 2):
+                yield 'C19.delta.many_modes', dict(d=d, nk=nk, v=v, negative=negative, seed=rs(),
+                                                   as_array=bool((d + negative) % 2))
+    for q in range(1, 5):
+        yield 'C19.vector_delta.exhaustive', dict(q=q, v=-2.5, np_int=True)
+        for v in (1e300, -1e300, 1e-8):
+            yield 'C19.vector_delta.exhaustive', dict(q=q, v=v)
+    for q in (1, 2):
+        yield 'C19.matrix_delta.exhaustive', dict(q=q, v=-2.5, np_int=True)
+        yield 'C19.matrix_delta.exhaustive', dict(q=q, v=-1e300)
+    for k, q in enumerate((7, 31, 32, 33, 53, 54, 64, 100) + ((10, 20, 52, 60, 63, 65, 150, 200) if big else ())):
+        for v in (1.0, -2.5e-300, 0.0, 1e300, 3) if big else ((1.0, -2.5e-300)[k % 2],):
+            for rep in range(4 if big else 1):
+                yield 'C19.vector_delta.large_q', dict(q=q, v=v, seed=rs())
+    for k, q in enumerate((5, 31, 33, 53, 54, 64, 100) + ((10, 32, 60, 200) if big else ())):
+        for v in (1.0, -2.5, 0.0, 1e-300) if big else ((1.0, -2.5)[k % 2],):
+            yield 'C19.matrix_delta.large_q', dict(q=q, v=v, seed=rs())
+    for q in (54, 55, 60, 63, 64, 100):
+        for v in (1.0, -2.5):
+            yield 'C19.vector_delta.pos_ge_2p53', dict(q=q, v=v, seed=rs())
+            if q in (54, 60, 64, 100):
+                yield 'C19.matrix_delta.pos_ge_2p53', dict(q=q, v=v, seed=rs())
+    for q in (1, 2, 3, 4, 5, 6, 10, 31, 32, 33, 53, 54, 64, 100):
+        yield 'C19.index_helpers.bits', dict(q=q, seed=rs())
+    # poly: argument forms, negative / fractional / large powers, scales, extreme shifts, large modes, many modes
+    for j, n in enumerate(pshapes):
+        d = len(n)
+        for k, shift in enumerate(([float(x) for x in range(d)], [-(x % 3) for x in range(d)],
+                                   [0.25 * x - 0.5 for x in range(d)])):
+            yield 'C19.poly.value', dict(n=n, shift=shift, power=1 + (j + k) % 4, scale=[-3, 0.5][k % 2],
+                                         n_array=bool((j + k) % 2), shift_array=True)
+        for shift in (1, -1.25):
+            yield 'C19.poly.value', dict(n=n, shift=shift, power=3, scale=2, n_array=True, shift_array=False)
+    for j, n in enumerate(([2, 2], [3, 2], [2, 3, 4], [2, 2, 2, 2])):
+        d = len(n)
+        for k, shift in enumerate((1, 0.5, 2.25, [1.0 + x for x in range(d)], [0.5 + 0.25 * x for x in range(d)])):
+            for power in (-1, -2, 0.5, 1.5, 10, 7) + ((-3, 2.0, 13, 20) if big else ()):
+                yield 'C19.poly.value', dict(n=n, shift=shift, power=power, scale=[1.0, -3][(j + k) % 2],
+                                             n_array=False, shift_array=bool(k % 2))
+    for n in ([2, 2], [2, 3, 4], [2, 2, 2, 2]):
+        for shift in (0, -1.25, [0.25 * x - 0.5 for x in range(len(n))]):
+            for power in (1, 3) if big else (3,):
+                for scale in (0, 0.0, 1e-300, 1e300, -1e8, 1e-8):
+                    yield 'C19.poly.value', dict(n=n, shift=shift, power=power, scale=scale)
+    for n in ([3, 2], [2, 2, 3]):
+        for shift in (1e8, -1e8 + 0.5, 1e-8, 1e-300, [1e8, -1e-8, 3.0][:len(n)]):
+            for power in (1, 2, 3):
+                yield 'C19.poly.value', dict(n=n, shift=shift, power=power, scale=[1.0, -3][power % 2])
+    for n in ([600, 2], [2, 513]):
+        for shift in (0, -1.25):
+            yield 'C19.poly.value', dict(n=n, shift=shift, power=2 if shift == 0 else 3, scale=-3)
+    for d, nk in [(2, 2), (10, 2), (61, 2), (100, [3, 1, 4])] + ([(3, 5), (30, [2, 3]), (200, 2)] if big else []):
+        for k, kind in enumerate(('number', 'list', 'array')):
+            ps = ((1, 1.0), (2, -0.75), (3, 1e8), (0, 2.0), (4, 1e-8))
+            for power, scale in ps if big else (ps[(k + d) % 3],):
+                yield 'C19.poly.many_modes', dict(d=d, nk=nk, shift_kind=kind, power=power, scale=scale, seed=rs())
+    # random constructors: many modes, large modes, degenerate / extreme ranges and scales, seed forms, defaults
+    for n, r in (([3] * 100, 2), ([600, 3], 4), ([2] * 61, [1] + [3, 2] * 30 + [1]), ([7], [1, 1])):
+        yield 'C19.rand.range', dict(n=n, r=r, a=-1.0, b=1.0, seed=rs(), as_array=isinstance(r, list))
+        yield 'C19.rand_norm.distribution', dict(n=n, r=r, m=0.5, s=2.0, seed=rs(), as_array=isinstance(r, list))
+        yield 'C19.rand_custom.uses_f', dict(n=n, r=r, seed=rs(), ret_list=False, as_array=isinstance(r, list))
+    for a, b in ((2.5, 2.5), (1e-300, 2e-300), (-1e300, 1e300), (-1e-8, 3e-8), (1e8, 1.0000001e8), (0.0, 5e-324)):
+        # 220 core entries (spread / mean / distinctness checks apply) except for the two-point subnormal range
+        yield 'C19.rand.range', dict(n=[5, 4, 3, 4], r=5 if b > 1e-320 else 4, a=a, b=b, seed=rs(), as_array=False)
+    for m_, s_ in ((0.0, 1e-8), (0.0, 1e8), (0.0, 1e-300), (1e100, 1e95), (1e-8, 1e-8), (-1e8, 1e4)):
+        yield 'C19.rand_norm.distribution', dict(n=[6, 6, 6, 6], r=8, m=m_, s=s_, seed=rs())
+    for d, nk, r in ((100, 2, 2), (100, [3, 1, 2] * 33 + [3], [1] + [2, 3] * 49 + [2, 1]), (2, [600, 513], 4)) \
+            + (((300, 2, 3), (1000, 2, 2)) if big else ()):
+        for noise in (1e-15, 1e-3) if big else (1e-3,):
+            yield 'C19.rand_stab.ones', dict(d=d, nk=nk, r=r, noise=noise, seed=rs(), as_array=d == 100)
+    for d, nk, r, noise in ((4, 6, 8, 1e-300), (4, 6, 8, 0.1), (3, 2, 5, 0.5), (20, 3, 3, 1e-8), (6, 6, 8, 1e-30)):
+        yield 'C19.rand_stab.ones', dict(d=d, nk=nk, r=r, noise=noise, seed=rs())
+    for fn in ('rand', 'rand_norm', 'rand_stab'):
+        for n, r in (([4, 3, 5], 3), ([2, 2], [1, 2, 1]), ([3] * 12, 2), ([1, 1], 1)):
+            for bitgen in ('pcg', 'mt') if big or len(n) == 3 else ('pcg',):
+                for sd in (0, rs()) + ((rs(), 2 ** 40 + 7) if big else ()):
+                    yield 'C19.rand.seed_forms', dict(fn=fn, n=n, r=r, seed=sd, bitgen=bitgen)
+    for which in ('const', 'const_zero', 'delta', 'poly', 'poly_shift', 'poly_shift_power', 'rand', 'rand_norm',
+                  'rand_custom', 'rand_stab', 'vector_delta', 'matrix_delta'):
+        yield 'C19.defaults', dict(which=which, seed=rs())
